@@ -244,7 +244,8 @@ Definition on_emitter (e : env) (b : broker) (i : N) (c : conn) (ch : chan) (mid
                            ((name, chan_string lc) :: filter (fun kv => negb (bytes_eqb (fst kv) name)) (cn_links c)) in
             let b1 := with_conn b i c' in
             let b2 := match auth e lc AllowRead with
-                      | Some k => if sub then subscribe_ev b1 i c' (key_contract k :: c_query lc) (c_chan lc) else b1
+                      | Some k => if sub && negb (has_permission k AllowExtend)   (* an extendable key is for extension only *)
+                                  then subscribe_ev b1 i c' (key_contract k :: c_query lc) (c_chan lc) else b1
                       | None => b1
                       end in
             emit b2 i (PLink mid 200 name (safe_string lc))
